@@ -94,6 +94,44 @@ def substitute(expr, subs):
     if stop(expr):
         return expr
 
+    # Substitution is simultaneous: an input of a substituted value that
+    # happens to share its name with a substituted variable is a different
+    # variable and must not be captured while the tree is rebuilt bottom-up.
+    # Tensors substitute simultaneously on their own; for other terms rename
+    # such inputs to fresh names first and rename them back afterwards.
+    if not all(interpreter.is_atom(c) for c in interpreter.children(expr)):
+        captured = frozenset(
+            name for k, v in subs for name in v.inputs if name in support
+        )
+        if captured:
+            rename = {name: interpreter.gensym(name + "__SUBS") for name in captured}
+            subs = tuple(
+                (
+                    k,
+                    substitute(
+                        v,
+                        tuple(
+                            (name, Variable(rename[name], v.inputs[name]))
+                            for name in captured
+                            if name in v.inputs
+                        ),
+                    ),
+                )
+                for k, v in subs
+            )
+            domains = {}
+            for k, v in subs:
+                domains.update(v.inputs)
+            result = substitute(expr, subs)
+            return substitute(
+                result,
+                tuple(
+                    (tmp, Variable(name, domains[tmp]))
+                    for name, tmp in rename.items()
+                    if tmp in result.inputs
+                ),
+            )
+
     env = interpreter.anf(expr, stop)
 
     with SubstituteInterpretation(subs, interpreter.get_interpretation()) as interp:
